@@ -312,7 +312,8 @@ def reducedBosonic (n : Nat) (modes : List Nat) : Except Err (Nat × List Nat) :
 
 /-- `BosonicBackend.state(modes)`: the rows selected from the simulator arrays (documented: ascending) -/
 def bosonicBackendState (nlen : Nat) (modes : List Nat) : Except Err (Nat × List Nat) :=
-  if (bosonicInd modes).any (fun i => decide (2 * nlen ≤ i)) then .error .indexError
+  -- after the `fix:` commit: a subsystem that is not active (here: beyond the register) is rejected like on the other back ends
+  if modes.any (fun i => decide (nlen ≤ i)) then .error .valueError
   else .ok (modes.length, bosonicInd modes)
 
 /-- `xpxp_to_xxpp` of thewalrus on `2k` indices: new index `a` reads old index `2a` (`a < k`) resp. `2(a−k)+1` -/
